@@ -96,6 +96,7 @@ impl InputTextPlugin for ProlongedSoundMarkPlugin {
         let data = input.current();
 
         for m in re.find_iter(data) {
+            verif_point!("prolonged_sound_mark:match");
             edit.replace_ref(m.range(), &self.replace_symbol)
         }
         Ok(edit)
